@@ -1,5 +1,6 @@
 /- C17 line-protocol driver (core-only). -/
 import BV.C17.Model
+import BV.C17.Headers
 namespace BV.C17.Driver
 
 def pid (o : Option Nat) : String := match o with | none => "-" | some n => toString n
@@ -52,7 +53,7 @@ structure St where
 
 def St.valid (s : St) (n : Nat) : Bool :=
   match s.status.find? (·.1 == n) with
-  | some (_, st) => st / 2 % 2 == 1
+  | some (_, st) => st / Spec.STATUS_VALID % 2 == 1
   | none => true
 
 /-- one query token; `none` = malformed -/
@@ -152,6 +153,37 @@ def runOps (s : St) (toks : List String) : String :=
   | none => "bad-op"
   | some outs => if outs.contains "panic" then "panic" else "|".intercalate outs
 
+def hfRes : HF.Res → String
+  | .main => "main" | .side => "side" | .orphan => "orphan"
+  | .dup => "err:dup" | .prevUnknown => "err:prevunknown" | .invalidAncestor => "err:invalidancestor"
+  | .knownInvalid => "err:knowninvalid" | .badBlock => "err:badblock" | .unsupported => "unsupported"
+
+def parseDelivery (n : Nat) (s : String) : Option HF.Op :=
+  let k := (s.drop 1).toString.toNat?
+  match k with
+  | none => none
+  | some k =>
+    if k < 1 ∨ k > n then none
+    else if s.startsWith "h" then some (.header k)
+    else if s.startsWith "b" then some (.block k)
+    else none
+
+def runHF (ps : List Nat) (bad : List Nat) (ops : List HF.Op) : String :=
+  let P := Spec.parentOf ps
+  let depths : Array Nat := (List.range (ps.length + 1)).foldl
+    (fun (a : Array Nat) n => a.push (match P n with | none => 0 | some p => a.getD p 0 + 1)) #[]
+  let e : HF.Env := { P := P, W := fun n => depths.getD n 0 + 1, bad := fun n => bad.contains n }
+  let rec go (s : HF.State) (ops : List HF.Op) (acc : List String) : List String :=
+    match ops with
+    | [] => acc.reverse
+    | op :: rest =>
+      let (s', r) := HF.step e s op
+      let n := match op with | .header n => n | .block n => n
+      let v := b01 (HF.isValidHeader e s'.b s'.h n)
+      go s' rest (s!"{hfRes r}/{s'.h.best}@{depths.getD s'.h.best 0}/{s'.b.tip}@{depths.getD s'.b.tip 0}/{v}" :: acc)
+  let outs := go {} ops []
+  if outs.isEmpty then "-" else "|".intercalate outs
+
 def handle : List String → String
   | ["gah", h] => match h.toNat? with
     | some h => s!"{invertLowestOne h}/{getAncestorHeight h}"
@@ -163,6 +195,13 @@ def handle : List String → String
     match parseSegs segs with
     | none => "bad-op"
     | some ps => runOps { idx := build ps } toks
+  | "hf" :: segs :: bad :: ds =>
+    match parseSegs segs, parseLoc bad with
+    | some ps, some bad =>
+      match ds.mapM (parseDelivery ps.length) with
+      | some ops => runHF ps bad ops
+      | none => "bad-op"
+    | _, _ => "bad-op"
   | _ => "bad-op"
 
 end BV.C17.Driver
